@@ -82,6 +82,7 @@ pub struct Sink {
     pub samples: Vec<String>,
     distinct: std::collections::HashSet<u64>,
     pub distinct_nontrivial: u64,
+    fail_keys: std::collections::HashMap<String, u64>,
 }
 
 impl Sink {
@@ -96,6 +97,7 @@ impl Sink {
             samples: vec![],
             distinct: Default::default(),
             distinct_nontrivial: 0,
+            fail_keys: Default::default(),
         }
     }
     /// one request with the implementation's answer; `nontrivial` per the scenario's rule
@@ -122,7 +124,12 @@ impl Sink {
         *self.stats.entry(k.to_string()).or_insert(0) += 1;
     }
     pub fn fail(&mut self, what: String) {
-        if self.oracle_failures.len() < 50 {
+        // keep at most 3 examples per signature / message family, 60 in total, so that one frequent (e.g. known)
+        // failure cannot crowd out a different one
+        let key: String = if what.starts_with("[sig=") { what.split(']').next().unwrap_or("").to_string() } else { what.chars().take(48).collect() };
+        let c = self.fail_keys.entry(key).or_insert(0);
+        *c += 1;
+        if *c <= 3 && self.oracle_failures.len() < 60 && !self.oracle_failures.contains(&what) {
             self.oracle_failures.push(what);
         }
         self.stat("oracle_failure");
